@@ -1256,12 +1256,30 @@ protected:
       auto connectionIt = req.headers.find("Connection");
       if (connectionIt != req.headers.end())
       {
-        std::string connValue = connectionIt->second;
-        std::transform(connValue.begin(), connValue.end(), connValue.begin(), ::tolower);
-        if (connValue == "close")
+        // Connection is a comma-separated list of connection options (RFC 9110
+        // §7.6.1): look for a "close" TOKEN (OWS-trimmed, case-folded), as
+        // HttpClient::responseRequestsClose does — not for the whole field value
+        // being "close", which misses e.g. "Connection: TE, close".
+        const std::string &connValue = connectionIt->second;
+        std::size_t tokStart = 0;
+        while (tokStart <= connValue.size())
         {
-          shouldCloseConnection = true;
-          connectionHeader = "close";
+          const std::size_t comma = connValue.find(',', tokStart);
+          const std::size_t tokEnd = (comma == std::string::npos) ? connValue.size() : comma;
+          std::string token = connValue.substr(tokStart, tokEnd - tokStart);
+          token.erase(0, token.find_first_not_of(" \t"));
+          token.erase(token.find_last_not_of(" \t") + 1);
+          std::transform(token.begin(), token.end(), token.begin(), ::tolower);
+          if (token == "close")
+          {
+            shouldCloseConnection = true;
+            connectionHeader = "close";
+          }
+          if (comma == std::string::npos)
+          {
+            break;
+          }
+          tokStart = comma + 1;
         }
       }
 
